@@ -210,6 +210,9 @@ Atomic<'a, ItemType, OgreAllocatorType, BUFFER_SIZE, MAX_STREAMS> {
                                channel_name = self.streams_manager.name(), used_streams_count = self.streams_manager.running_streams_count());
                     },
                 }
+            } else {
+                // the list of listeners is being rebuilt (a listener is coming or going): give back the reference taken for this absent entry
+                drop(unsafe { ogre_arc_item.raw_copy() });
             }
         }
         true
